@@ -194,6 +194,51 @@ func c04r2(c *Ctx, id string) {
 			n++
 			c.see(fn)
 			s, e := w.Origin(tab["Start"]), w.Origin(tab["End"])
+			// a constructor of the range (`models.NewVbIDRange(vbIDs)`): the literal is judged where its result is used,
+			// in terms of what is handed in
+			if isCtor := returnsAlloc(fn, a); isCtor && fn.Parent() == nil {
+				sites := w.callersOf(fn)
+				if len(sites) == 0 {
+					c.Undecided(id, "range-literal@"+fname(fn), a.Pos(), "the range constructor has no caller")
+					continue
+				}
+				for _, cs := range sites {
+					call, isCall := cs.Call.(*ssa.Call)
+					if !isCall {
+						continue
+					}
+					c.see(cs.Fn)
+					s2, e2 := s, e
+					for i, prm := range fn.Params {
+						if i < len(call.Common().Args) {
+							ao := w.Origin(call.Common().Args[i])
+							s2 = strings.ReplaceAll(s2, "param("+prm.Name()+")", ao)
+							e2 = strings.ReplaceAll(e2, "param("+prm.Name()+")", ao)
+						}
+					}
+					x, ok1 := strings.CutSuffix(s2, "[const(0)]")
+					okLit := ok1 && e2 == x+"[(len("+x+") - const(1))]" && strings.Contains(x, ".Get)()")
+					c.Check(okLit, id, "range-literal@"+fname(cs.Fn), call.Pos(), "Start ← "+s2+", End ← "+e2, "assigned range is not [first, last] of the discovered vBuckets: Start ← "+s2+", End ← "+e2)
+					var st *ssa.Store
+					for _, r := range *call.Referrers() {
+						if x, isSt := r.(*ssa.Store); isSt && x.Val == ssa.Value(call) && fieldOfAddr(x.Addr) != nil {
+							st = x
+						}
+					}
+					if st == nil {
+						c.Fail(id, "range-install@"+fname(cs.Fn), call.Pos(), "the derived range is not stored into the stream's range field")
+						continue
+					}
+					skipped := false
+					allInstrs(cs.Fn, func(in ssa.Instruction) {
+						if _, isRet := in.(*ssa.Return); isRet && existsEntryPathAvoiding(cs.Fn, in, func(x ssa.Instruction) bool { return x == ssa.Instruction(st) }) {
+							skipped = true
+						}
+					})
+					c.Check(!skipped, id, "range-install@"+fname(cs.Fn), st.Pos(), "every path through the function installs the freshly derived range", "a path through "+fname(cs.Fn)+" returns without installing the freshly derived range (a stale range stays in effect)")
+				}
+				continue
+			}
 			// Start ← X[0], End ← X[len(X)-1] with X = VBucketDiscovery.Get()
 			x, ok1 := strings.CutSuffix(s, "[const(0)]")
 			okEnd := e == x+"[(len("+x+") - const(1))]"
@@ -287,4 +332,15 @@ func c04r3(c *Ctx, id string) {
 		}
 	}
 	c.Floor(id, 3)
+}
+
+// returnsAlloc: a is what fn returns (on some return).
+func returnsAlloc(fn *ssa.Function, a *ssa.Alloc) bool {
+	ok := false
+	allInstrs(fn, func(in ssa.Instruction) {
+		if r, isR := in.(*ssa.Return); isR && in.Parent() == fn && len(r.Results) == 1 && asAlloc(r.Results[0]) == a {
+			ok = true
+		}
+	})
+	return ok
 }
